@@ -10,6 +10,7 @@ _T = ["scalarmult_rc_exact", "scalarmult_rc_fail", "scalarmult_ref10_exact", "sc
 _T2 = ["blocklist_ladder_all", "blocklist_sound_all", "ref10_eq_spec", "impl_agree_spec"]
 THEOREMS = vcore.theorems_in("SodiumModel/Properties/C05.lean", _T, "Sodium.C05") + vcore.theorems_in("SodiumModel/Properties/C05LowOrder.lean", _T2, "Sodium.C05")
 IMPORTS = ["SodiumModel.Properties.C05", "SodiumModel.Properties.C05LowOrder"] if THEOREMS else ["SodiumModel.Spec.Curve25519"]
+TABLES = ['x25519_blocklist_eq']      # Tie B: kernel-checked `table regenerated from the source = model table`
 RULE = ("random (scalar, point) pairs; the low-order / non-canonical u-coordinates (0, 1, the two order-8 points, p-1, p, p+1) with either top bit; u in p-k..p+k and "
         "2^255-k..2^255-1; scalars covering all 32 clamp-bit patterns; limb-structured field elements (all-ones 51-bit and 25.5-bit limbs); key exchange: both sides computed "
         "and required cross-equal; box in both cipher variants with all call forms; seeded key pairs; backends: AVX (sandy2x) / ref10 fe51 / fe25.5 / portable")
@@ -48,8 +49,19 @@ def points(rng, full):
         pts.append(((1 << 255) - 19 - (1 << w)).to_bytes(32, "little"))
     # neighbours of every blocklist row of has_small_order (has_small_order_exact: ONLY the rows themselves, top bit cleared, are rejected early):
     # each byte with its high bit flipped, single-bit flips, and sparse {00, 80} byte patterns
-    for u in edpy.X_LOW:
-        row = bytearray((u % (1 << 256)).to_bytes(32, "little"))
+    # rows come from the spec's low-order list AND from the blocklist as it is written in /repo's current source (Tie B search:
+    # if the table obligation x25519_blocklist_eq fails, the changed row itself is the candidate failing input)
+    rows = [(u % (1 << 256)).to_bytes(32, "little") for u in edpy.X_LOW]
+    try:
+        import c2lean_tables
+        for r in c2lean_tables.extract("crypto_scalarmult/curve25519/ref10/x25519_ref10.c", "blocklist", True):
+            if len(r) == 32 and bytes(r) not in rows:
+                rows.append(bytes(r))
+                pts.append(bytes(r)); pts.append(bytes(r[:31]) + bytes([r[31] | 0x80]))
+    except Exception:
+        pass
+    for row in rows:
+        row = bytearray(row)
         for j in range(32):
             q = bytearray(row); q[j] ^= 0x80; pts.append(bytes(q))
         for bit in (range(256) if full else rng.sample(range(256), 24)):
